@@ -5,13 +5,14 @@
 # it could no longer be completed by id, and the next subset wait discarded it without writing it (data of request A never
 # reached the file).  unknown_id.c / wait_bad_id.c were written by the sub-agents that produced seeded changes C02_j / C13_j.
 # Scenario S2 of unknown_id.c (a list as long as the queue, no status array, is taken for the whole queue whatever ids it
-# holds) is a separate observation and is not judged here.   exit 0: request A survives the refused call, 1: it is lost
+# holds) is known finding F-C02-6: its lines are printed, it does not decide the exit status.
+# exit 0: request A survives the refused call, 1: it is lost
 W="${1:-/repo}"; HERE="$(cd "$(dirname "$0")" && pwd)"
 TMP="$(mktemp -d /tmp/c02uid.XXXXXX)" || exit 2
 trap 'rm -rf "$TMP"' EXIT
 rc=0
 mpicc -g -O0 -I"$W/src/include" -o "$TMP/t" "$HERE/unknown_id.c" "$W/src/libs/.libs/libpnetcdf.a" -lm || exit 2
-timeout 60 mpiexec --allow-run-as-root --oversubscribe -n 1 "$TMP/t" "$TMP/w.nc" 2>&1 | grep "^S1" | tee "$TMP/out"
+timeout 60 mpiexec --allow-run-as-root --oversubscribe -n 1 "$TMP/t" "$TMP/w.nc" 2>&1 | grep "^S[12]" | tee "$TMP/out"
 grep -q "A in file = 100 101 102 103" "$TMP/out" || rc=1
 mpicc -g -O0 -I"$W/src/include" -o "$TMP/t2" "$HERE/wait_bad_id.c" "$W/src/libs/.libs/libpnetcdf.a" -lm || exit 2
 timeout 60 mpiexec --allow-run-as-root --oversubscribe -n 1 "$TMP/t2" "$TMP/w2.nc" 2>&1 | grep "^wait" | tee "$TMP/out2"
